@@ -877,6 +877,78 @@ def _pure_expr(e: ast.AST) -> bool:
     return True
 
 
+def _unconditionally_evaluated(stmt: ast.stmt, hit: ast.AST) -> bool:
+    """is `hit` evaluated whenever `stmt` starts executing?  (the header of a compound statement, or a simple statement, outside every
+    conditional expression, short-circuit operand, comprehension element, lambda)"""
+    if isinstance(stmt, ast.If):
+        roots = [stmt.test]
+    elif isinstance(stmt, (ast.For, ast.AsyncFor)):
+        roots = [stmt.iter]
+    elif isinstance(stmt, ast.While):
+        roots = []              # re-evaluated, and possibly after the body changed things
+    elif isinstance(stmt, (ast.With, ast.AsyncWith)):
+        roots = [stmt.items[0].context_expr] if stmt.items else []
+    elif isinstance(stmt, (ast.Assign, ast.AugAssign, ast.AnnAssign, ast.Return, ast.Expr, ast.Assert, ast.Raise, ast.Delete)):
+        roots = [stmt]
+    else:
+        roots = []
+
+    def search(n: ast.AST) -> Optional[bool]:
+        if n is hit:
+            return True
+        if isinstance(n, ast.IfExp):
+            r = search(n.test)
+            if r:
+                return True
+            if any(hit is x for x in ast.walk(n.body)) or any(hit is x for x in ast.walk(n.orelse)):
+                return False
+            return None
+        if isinstance(n, ast.BoolOp):
+            r = search(n.values[0])
+            if r:
+                return True
+            if any(hit is x for v in n.values[1:] for x in ast.walk(v)):
+                return False
+            return None
+        if isinstance(n, (ast.ListComp, ast.SetComp, ast.DictComp, ast.GeneratorExp)):
+            r = search(n.generators[0].iter) if not isinstance(n, ast.GeneratorExp) else None
+            if r:
+                return True
+            if any(hit is x for x in ast.walk(n)):
+                return False
+            return None
+        if isinstance(n, ast.Lambda):
+            return False if any(hit is x for x in ast.walk(n)) else None
+        if isinstance(n, ast.Assert):
+            r = search(n.test)
+            if r:
+                return True
+            return False if n.msg is not None and any(hit is x for x in ast.walk(n.msg)) else None
+        if isinstance(n, ast.Compare) and len(n.ops) > 1:
+            r = search(n.left)
+            if r:
+                return True
+            r = search(n.comparators[0])
+            if r:
+                return True
+            return False if any(hit is x for c in n.comparators[1:] for x in ast.walk(c)) else None
+        for ch in ast.iter_child_nodes(n):
+            r = search(ch)
+            if r is not None:
+                return r
+        return None
+    return any(search(r) is True for r in roots)
+
+
+def _inside_try(stmts, node: ast.AST) -> bool:
+    """is `node` inside a try statement (any part) that itself lies within `stmts`?"""
+    for s in stmts:
+        for t in ast.walk(s):
+            if isinstance(t, ast.Try) and any(node is x for x in ast.walk(t)):
+                return True
+    return False
+
+
 def _propagate_field_reads(tree: ast.AST, computed: Set[str] = frozenset()):
     """`a = b.f.g` (a plain local bound once; b a name that is not rebound while a is live; no store to an attribute f / g anywhere in the
     function): every later read of a in the same block (or nested in it) is the field read itself, so a is replaced and the assignment dropped."""
@@ -934,6 +1006,9 @@ def _propagate_field_reads(tree: ast.AST, computed: Set[str] = frozenset()):
                         inside = {id(x) for s in rest for x in ast.walk(s)}
                         reads = [x for x in ast.walk(fn) if isinstance(x, ast.Name) and x.id == a and isinstance(x.ctx, ast.Load)]
                         if not reads or any(id(x) not in inside for x in reads):
+                            continue
+                        # an attribute read can raise: it is never moved into a try block (a handler there would start catching it)
+                        if isinstance(st.value, ast.Attribute) and any(_inside_try(rest, x) for x in reads):
                             continue
                         val = st.value
 
@@ -1007,6 +1082,11 @@ def _propagate_element_reads(tree: ast.AST):
                         occ = [x for x in ast.walk(fn) if isinstance(x, ast.Name) and x.id == a and x is not st.targets[0]]
                         if not occ or any(id(x) not in inside for x in occ):
                             continue
+                        # a subscript can raise (IndexError / KeyError): the read may only move if it is still evaluated at the same point -
+                        # its first use is in the very next statement, in a position evaluated unconditionally - and never into a try block
+                        first = [x for x in occ if any(x is y for y in ast.walk(rest[0]))] if rest else []
+                        if not first or not any(_unconditionally_evaluated(rest[0], x) for x in first) or any(_inside_try(rest, x) for x in occ):
+                            continue
                         xt = ast.unparse(X)
                         clash = False
                         for s in rest:
@@ -1046,6 +1126,11 @@ def _propagate_element_reads(tree: ast.AST):
             if not done:
                 break
     ast.fix_missing_locations(tree)
+
+
+def _cannot_raise(e: ast.AST) -> bool:
+    """names, constants and field reads of names (conventionally total); anything with a subscript, an operator or a call may raise"""
+    return all(isinstance(x, (ast.Name, ast.Constant, ast.Attribute, ast.Load, ast.Tuple)) for x in ast.walk(e))
 
 
 def _inline_adjacent_temporaries(tree: ast.AST):
@@ -1098,7 +1183,7 @@ def _inline_adjacent_temporaries(tree: ast.AST):
                                               not any(h is z for h in hits for z in ast.walk(c.generators[0].iter))
                                               for p_ in parts for c in ast.walk(p_))
                                 # names E depends on must not be rebound by the target of nxt before the read (only AugAssign/Assign targets are written after the value)
-                                if len(hits) == 1 and not in_comp:
+                                if len(hits) == 1 and not in_comp and (whole or _unconditionally_evaluated(nxt, hits[0]) or _cannot_raise(st.value)):
                                     h = hits[0]
 
                                     class R(ast.NodeTransformer):
